@@ -81,6 +81,23 @@ def eval_pair(args):
         if not B <= A: bad.append(('restriction-accepted-but-not-included', sorted(B - A), 'schema error'))
     except xmlschema.XMLSchemaException:
         pass
+    # a restriction that declares NO wildcard admits none of the names of its base (fa): it stands for the empty set - an extension of it with fb admits exactly B, and a further
+    # restriction that declares fb is a restriction only if B is empty
+    try:
+        s = _cls(ver)(head + f'<xs:complexType name="Base">{attr(fa)}</xs:complexType><xs:complexType name="Res0"><xs:complexContent><xs:restriction base="t:Base"/></xs:complexContent></xs:complexType>'
+                      f'<xs:complexType name="Ext"><xs:complexContent><xs:extension base="t:Res0">{attr(fb)}</xs:extension></xs:complexContent></xs:complexType><xs:element name="n" type="t:Res0"/><xs:element name="e" type="t:Ext"/></xs:schema>')
+        got = admitted(s, 'n')
+        if got: bad.append(('restriction-without-wildcard-admits', sorted(got), []))
+        got = admitted(s, 'e')
+        if got != B: bad.append(('extension-of-the-empty-wildcard', sorted(got), sorted(B)))
+    except xmlschema.XMLSchemaException as e:
+        bad.append(('restriction-without-wildcard', f'schema refused: {type(e).__name__}: {str(e)[:80]}', 'accepted'))
+    try:
+        _cls(ver)(head + f'<xs:complexType name="Base">{attr(fa)}</xs:complexType><xs:complexType name="Res0"><xs:complexContent><xs:restriction base="t:Base"/></xs:complexContent></xs:complexType>'
+                  f'<xs:complexType name="Res1"><xs:complexContent><xs:restriction base="t:Res0">{attr(fb)}</xs:restriction></xs:complexContent></xs:complexType></xs:schema>')
+        if B: bad.append(('restriction-of-the-empty-wildcard-accepted', sorted(B), 'schema error'))
+    except xmlschema.XMLSchemaException:
+        pass
     # overlap of two element wildcards in a choice (namespace constraints only: the forms with notQName are left to the three clauses above)
     if len(fa) > 2 or len(fb) > 2: return dict(ver=ver, a=fa, b=fb, bad=bad)
     try:
